@@ -6,13 +6,17 @@ package quiet
 import (
 	"bytes"
 	"runtime"
+	"sync"
 	"time"
 )
 
 var buf = make([]byte, 1<<20)
+var mu sync.Mutex // several threads may ask at once in the free-running checks
 
 // Quiet reports whether every other goroutine is blocked right now.
 func Quiet() bool {
+	mu.Lock()
+	defer mu.Unlock()
 	for {
 		n := runtime.Stack(buf, true)
 		if n < len(buf) {
